@@ -1,6 +1,8 @@
 import Orca.Lemmas.IdemHist
 import Orca.Lemmas.LowerIdem
 import Orca.Lemmas.ApiPlan
+import Orca.Gen.EncodeWrites
+import Orca.Model.EncodeWritesSpec
 /-!
 # C05 — encoding again without edits gives the same bytes
 
@@ -89,3 +91,17 @@ example :
   decide
 
 end Orca.Lower
+
+/-- **The tie to the source (regenerated on every run).** Every place in `encode_internal` that can change the module it encodes
+    (assignments through a field path, mutable borrows, mutating calls), in source order. What the first encoding leaves behind is what
+    these writes do; a new write (for instance a list purged or a flag reset during encoding), a removed one or a reordering breaks
+    this obligation. -/
+theorem c05_encoder_writes_reviewed :
+    Orca.Gen.EncodeWrites.encode_internal = Orca.EncodeWritesSpec.encode_internal := rfl
+
+/-- decided on the regenerated list: the only field of the module the encoder assigns directly is `start`; every other change goes through
+    one of the reviewed mutable borrows / in-place rewrites, each of which is in the list of writes that reach the module -/
+theorem c05_encoder_assigns_only_start :
+    (Orca.Gen.EncodeWrites.encode_internal.filter (fun w => w.1 == "assign")) = [("assign", "self.start =")]
+    ∧ ∀ w ∈ Orca.EncodeWritesSpec.reachModule, w ∈ Orca.Gen.EncodeWrites.encode_internal := by
+  decide
